@@ -32,7 +32,10 @@
 EXTENDS Integers, Sequences, FiniteSets, Rat
 
 CONSTANTS DayNo,      \* day numbers of the day slots
-          LSecs       \* sequence of securities
+          LSecs,      \* sequence of securities
+          FoldSellLines   \* FALSE: the code as it is (finding D14: only ADJACENT same-day SELL lines are merged);
+                          \* TRUE: the specified repair -- every further SELL of a security on a day is folded into the
+                          \* day's first SELL, as purchases are (s105(1)(a): one disposal per day and class)
 
 VARIABLES
   inp,      \* the lines as given (file order)
@@ -88,15 +91,16 @@ MergeAdj(out, cur, rest) ==
        ELSE MergeAdj(Append(out, cur), n, Tail(rest))
 
 MinOf(S) == CHOOSE x \in S : \A y \in S : x <= y
-RECURSIVE FoldBuys(_, _, _)
-FoldBuys(out, ds, rest) ==
+RECURSIVE FoldOps(_, _, _, _)
+FoldOps(out, ds, rest, ops) ==
   IF rest = <<>> THEN out
   ELSE LET n == Head(rest)
            ds2 == IF out # <<>> /\ out[Len(out)].d # n.d THEN Len(out) + 1 ELSE ds
-           cands == {j \in ds2..Len(out) : out[j].s = n.s /\ out[j].op = "BUY"}
-       IN IF n.op = "BUY" /\ cands # {}
-          THEN FoldBuys([out EXCEPT ![MinOf(cands)] = MergeTwo(@, n)], ds2, Tail(rest))
-          ELSE FoldBuys(Append(out, n), ds2, Tail(rest))
+           cands == {j \in ds2..Len(out) : out[j].s = n.s /\ out[j].op = n.op}
+       IN IF n.op \in ops /\ cands # {}
+          THEN FoldOps([out EXCEPT ![MinOf(cands)] = MergeTwo(@, n)], ds2, Tail(rest), ops)
+          ELSE FoldOps(Append(out, n), ds2, Tail(rest), ops)
+FoldBuys(out, ds, rest) == FoldOps(out, ds, rest, IF FoldSellLines THEN {"BUY", "SELL"} ELSE {"BUY"})
 
 LSort == /\ lpc = "sort" /\ txs' = SortStable(<<>>, txs) /\ lpc' = "merge"
          /\ UNCHANGED <<inp, di, offs, pl, pdist, ml, fut, sdr, lpool, lheld, llegs, lerr>>
